@@ -15,7 +15,8 @@ for d in "$@"; do
     if [ "$kind" = "r2b" ] || [ "$kind" = "r3b" ]; then
       ( /venv/bin/python tools/verify_seed.py $prop b2${x} $d/patch_$X.diff $d/demo_$X.py $d/notes_$X.md --benign > $out 2>&1 ) &
     else
-      ( /venv/bin/python tools/verify_seed.py $prop r2${x} $d/patch_$X.diff $d/demo_$X.py $d/notes_$X.md > $out 2>&1 ) &
+      lab=r2; [ "$kind" = "r3h" ] && lab=r3
+      ( /venv/bin/python tools/verify_seed.py $prop ${lab}${x} $d/patch_$X.diff $d/demo_$X.py $d/notes_$X.md > $out 2>&1 ) &
     fi
     while [ $(jobs -r | wc -l) -ge 5 ]; do sleep 2; done
   done
